@@ -109,7 +109,11 @@ class Program:
         return c[0]
 
     def closure_body(self, ty):
-        return self.by_self1.get(ty.strip())
+        ty = ty.strip()
+        b = self.by_self1.get(ty)
+        if b is None and ty.startswith('{closure@'):
+            b = self.by_self1.get('{async closure@' + ty[len('{closure@'):])     # aggregates of async closures are printed as plain closures
+        return b
 
     def poll_body(self, ty, origin):
         """poll body of a coroutine value whose aggregate type text is `ty`, created in body `origin`."""
@@ -156,6 +160,11 @@ class Program:
         segs = info['segs']
         if len(segs) >= 2:
             c = [b for (t, b) in self.by_method.get((segs[-2], meth), [])]
+            if not c:
+                # inherent impl written on a type alias (`impl Metadata` where `type Metadata = Event<()>`)
+                for alias, target in self.tables.aliases.items():
+                    if target == segs[-2]:
+                        c += [b for (t, b) in self.by_method.get((alias, meth), [])]
             if len(c) == 1:
                 return c[0]
             if len(c) > 1:
@@ -472,7 +481,7 @@ class Exec:
         if isinstance(f, Ref):
             f0 = self.read_path(f.cell, f.path)
             f0 = self.materialize(f0)
-            if isinstance(f0, Adt) and f0.ty.startswith('{closure@'):
+            if isinstance(f0, Adt) and (f0.ty.startswith('{closure@') or f0.ty.startswith('{async closure@')):
                 body = self.prog.closure_body(f0.ty)
                 if body is None:
                     raise Inconclusive('no body for closure %s' % f0.ty)
@@ -480,7 +489,7 @@ class Exec:
                     return self.call_body(body, [f] + list(args))
                 return self.call_body(body, [f0] + list(args))
             f = f0
-        if isinstance(f, Adt) and f.ty.startswith('{closure@'):
+        if isinstance(f, Adt) and (f.ty.startswith('{closure@') or f.ty.startswith('{async closure@')):
             body = self.prog.closure_body(f.ty)
             if body is None:
                 raise Inconclusive('no body for closure %s' % f.ty)
@@ -756,7 +765,7 @@ class Frame:
             return Obj('vec', items=tuple(self.operand(f) for f in fields), ty=dest_ty)
         if kind == 'closure':
             vals = {(None, i): self.operand(op) for i, (_, op) in enumerate(fields)}
-            if name.startswith('{closure@'):
+            if name.startswith('{closure@') or name.startswith('{async closure@'):
                 return Adt(name, vals, None, None)
             # coroutine / async block: state discriminant 0 (unresumed)
             ex.coro_origin[name] = self.body.name
@@ -859,7 +868,13 @@ class Frame:
                     dty = self.place_type(t[1])
                     ex.cur_frame = self
                     ex.cur_arg_tys = [self.operand_type(a) for a in t[3]]
-                    r = ex.call_named(t[2], args, dty)
+                    if t[2].startswith(('move _', 'copy _', 'move (', 'copy (')):
+                        # call through a function pointer held in a place
+                        from .mirparse import parse_operand
+                        fval = self.operand(parse_operand(t[2]))
+                        r = ex.models.call_fn_value(ex, fval, args, dty, {'text': t[2], 'key': 'fnptr', 'method': 'call'})
+                    else:
+                        r = ex.call_named(t[2], args, dty)
                     if t[4] is None:
                         raise PathEnd('panic', 'diverging call %s in %s' % (t[2][:60], body.name))
                     self.write(t[1], r)
